@@ -39,6 +39,7 @@ func registerMoreOps(w *Workload) {
 	w.ops["cancel_unbonding"] = w.opCancelUnbonding
 	w.ops["tie_reports"] = w.opTieReport
 	w.ops["tie_vote"] = w.opTieVote
+	w.ops["op_reporter"] = w.opOperatorReporter
 }
 
 // ---------------------------------------------------------------- views used by the workload
@@ -863,6 +864,21 @@ func (w *Workload) opTieVote(h int64) (*Intent, bool) {
 		}
 		if n == 1 && v0 && !v1 && w.acc().Free(a1) && !w.busy[a1] {
 			return w.newIntent(a1, MsgSpec{K: "vote", U: d.D.DisputeId, E: int32(Pick(w.r, []int{2, 0}))}), true
+		}
+	}
+	return nil, false
+}
+
+// opOperatorReporter: a validator operator becomes a reporter (its self-delegation gives it the power that
+// bridge-deposit aggregates need to reach the two-thirds threshold).
+func (w *Workload) opOperatorReporter(h int64) (*Intent, bool) {
+	have := map[string]bool{}
+	for _, s := range w.v.Selectors() {
+		have[string(s.Addr)] = true
+	}
+	for i := 0; i < w.acc().NumOps(); i++ {
+		if w.usable(i) && !have[string(w.acc().Addr(i))] {
+			return w.newIntent(i, MsgSpec{K: "create_reporter", V: Pick(w.r, []string{"0", "0.1", "0.5"}), N: fmt.Sprint(w.g.C.Cfg.MinTrb)}), true
 		}
 	}
 	return nil, false
